@@ -16,8 +16,9 @@
 (*   opt  [tid, ci, fi, sec, o, del]  (direct options[...] mutation)         *)
 (*   ser  [tid, status, bytes]     parse [bytes, status]                      *)
 (*   cmp  [a, b, eq, ne, samebytes]   repr [tid]                              *)
+(*   stats [tid] (generate_stats)     mut2 [tid, ci, fi, key, key2, val]      *)
 (*   all carry snaps = the trees after the event                             *)
-EXTENDS Integers, Sequences, TLC, Json, IOUtils, Dom
+EXTENDS Integers, Sequences, TLC, Json, IOUtils, Dom, Stats
 VARIABLES i, j, trees
 Traces == ndJsonDeserialize(IOEnv.TRACE_FILE)
 TraceTables == JsonDeserialize(IOEnv.TABLES_FILE)
@@ -40,6 +41,25 @@ ContentsOf(t) ==
    changes |-> [n \in 1..Len(t.changes) |->
       [pre |-> CC(t.changes[n].pre), meta |-> CC(t.changes[n].meta),
        files |-> [m \in 1..Len(t.changes[n].files) |-> [meta |-> CC(t.changes[n].files[m].meta), diff |-> CC(t.changes[n].files[m].diff)]]]]]
+
+(* ---- generate_stats on a tree of the object model (Stats.tla) ---- *)
+DiffDesc(cmap, cs) ==
+  [has |-> cs.kind = "bytes", raw |-> cs.raw,
+   type |-> IF OHas(cs.opts, K_type) THEN (IF OGet(cs.opts, K_type).s = V_binary THEN "binary" ELSE "text") ELSE "none",
+   le |-> IF LeArg(cs.opts) = "bad" THEN "none" ELSE LeArg(cs.opts),
+   codec |-> IF EncArg(cmap, cs.opts).given THEN EncArg(cmap, cs.opts).codec ELSE NoCodec]
+StatsTree(cmap, t) ==
+  [meta |-> t.meta.meta,
+   changes |-> [n \in 1..Len(t.changes) |->
+      [meta |-> t.changes[n].meta.meta,
+       files |-> [m \in 1..Len(t.changes[n].files) |->
+          [meta |-> t.changes[n].files[m].meta.meta, d |-> DiffDesc(cmap, t.changes[n].files[m].diff)]]]]]
+WithStats(t, g) ==
+  [t EXCEPT !.meta.meta = SortKeys(g.meta),
+            !.changes = [n \in 1..Len(t.changes) |->
+               [t.changes[n] EXCEPT !.meta.meta = SortKeys(g.changes[n].meta),
+                                    !.files = [m \in 1..Len(t.changes[n].files) |->
+                                       [t.changes[n].files[m] EXCEPT !.meta.meta = SortKeys(g.changes[n].files[m].meta)]]]]]
 
 (* first tree whose snapshot differs from the specification state; 0 if none *)
 SnapDiff(ts, snaps) ==
@@ -73,6 +93,15 @@ Step(tr, e) ==
          LET t == trees[e.tid]  c == GetC(t, e.ci, e.fi)
              c2 == [c EXCEPT !.meta.meta = JSetKey(@, e.key, e.val)] IN
          Res(TRUE, "", SetTree(trees, e.tid, PutC(t, e.ci, e.fi, c2)))
+    [] e.k = "mut2" ->       \* in-place change inside a nested metadata dictionary: meta[key][key2] = val
+         LET t == trees[e.tid]  c == GetC(t, e.ci, e.fi)
+             inner == GetKey(c.meta.meta, e.key)
+             c2 == [c EXCEPT !.meta.meta = JSetKey(@, e.key, JSetKey(inner, e.key2, e.val))] IN
+         Res(TRUE, "", SetTree(trees, e.tid, PutC(t, e.ci, e.fi, c2)))
+    [] e.k = "stats" ->
+         LET t == trees[e.tid]  st == StatsTree(tr.cmap, t) IN
+         IF AnyUnspec(st) THEN Res(TRUE, "UNSPEC", trees)
+         ELSE Res(TRUE, "", SetTree(trees, e.tid, WithStats(t, GenAll(st))))
     [] e.k = "opt" ->
          LET t == trees[e.tid]  c == GetC(t, e.ci, e.fi)
              upd(os) == IF e.del THEN ODel(os, e.o.k) ELSE OSet(os, e.o)
